@@ -177,6 +177,19 @@ fn byron_addr(a: u64) -> ByronAddress {
 
 /// the six minting policies: native scripts (one signature each, a real key); policy id = script hash
 fn policy_script(i: u64) -> NativeScript { NativeScript::new_script_pubkey(&ScriptPubkey::new(&kh(1000 + i))) }
+/// policies with an odd index are supplied BY REFERENCE INPUT (outpoint ref_outpoint(43, i), declared script size 0 so that the
+/// reference-script fee of the model is unaffected) and DECLARE their signers: the policy key and key 400 + i, which nothing
+/// else requires; even indices: the script inline
+fn mint_by_ref(i: u64) -> bool { i % 2 == 1 }
+fn mint_declared(i: u64) -> Vec<u64> { if mint_by_ref(i) { vec![1000 + i, 400 + i] } else { vec![1000 + i] } }
+fn mint_source(i: u64) -> NativeScriptSource {
+    if !mint_by_ref(i) { return NativeScriptSource::new(&policy_script(i)); }
+    let mut src = NativeScriptSource::new_ref_input(&policy_script(i).hash(), &ref_outpoint(43, i), 0);
+    let mut ks = Ed25519KeyHashes::new();
+    for k in mint_declared(i) { ks.add(&kh(k)); }
+    src.set_required_signers(&ks);
+    src
+}
 
 /// address id -> destination address (id >= 1).  Kinds: enterprise key, base key/key, pointer, base key/script, one Byron address.
 fn address(id: u64) -> Address {
@@ -690,6 +703,7 @@ fn new_world(sc: &Scenario) -> World {
     for k in 0..POOL { key_ids.insert(kh(k).to_bytes(), k); native_keys.insert(pubkey_script(k).hash().to_bytes(), k); }
     let xr_ids: BTreeSet<u64> = sc.ops.iter().filter_map(|o| match o { Op::Xr(i, _) => Some(*i), _ => None }).collect();
     let mut ref_bytes = HashMap::new();
+    for i in 0..N_POLICIES { if mint_by_ref(i) { ref_bytes.insert(ref_outpoint(43, i).to_bytes(), 0u64); } }
     for u in &sc.utxos {
         if matches!(u.kind, 5 | 6 | 9) { ref_bytes.insert(script_ref_outpoint(u.kind == 9, u.refsize, u.id).to_bytes(), u.refsize); }
     }
@@ -850,7 +864,7 @@ fn run_op(w: &mut World, op: &Op, last_tx: &mut Option<Transaction>) -> OpRec {
         Op::Mint(ow, p, n, amt) => {
             let r = catch(|| -> Result<(), JsError> {
                 let idx = *w.policy_idx.get(p).ok_or(JsError::from_str("unknown policy"))?;
-                let wit = MintWitness::new_native_script(&NativeScriptSource::new(&policy_script(idx)));
+                let wit = MintWitness::new_native_script(&mint_source(idx));
                 let name = AssetName::new(n.clone())?;
                 let amount = Int::from_str(amt)?;
                 if *ow { w.mint.set_asset(&wit, &name, &amount)?; } else { w.mint.add_asset(&wit, &name, &amount)?; }
@@ -997,7 +1011,7 @@ fn signed_figures(w: &World, tx: &Transaction) -> String {
     }
     if let Some(m) = body.mint() {
         let ps = m.keys();
-        for i in 0..ps.len() { keys.insert(1000 + *w.policy_idx.get(&ps.get(i).to_bytes()).expect("minted policy is one of the six")); }
+        for i in 0..ps.len() { keys.extend(mint_declared(*w.policy_idx.get(&ps.get(i).to_bytes()).expect("minted policy is one of the six"))); }
     }
     let mut ws = tx.witness_set();
     if !keys.is_empty() {
